@@ -62,10 +62,15 @@ theorem validateFieldLengths_ok (df : Frame) (n : Nat) : ∀ (ns : List String),
     simp only [validateFieldLengths, getCol_of_look hc, hl, this]
     exact validateFieldLengths_ok df n ks (fun x hx => h x (by simp [hx]))
 
+theorem allDistinct_iff : ∀ (l : List String), allDistinct l = true ↔ l.Nodup
+  | [] => by simp [allDistinct]
+  | x :: xs => by simp [allDistinct, allDistinct_iff xs]
+
 /-- **the front end of `merge`**: arguments of the right shape pass every validator, `left_len` / `right_len` are the
-    lengths of the key columns, and the call is handed to `_ordered_merge` exactly when both ordered hints are given, the key is
-    single and the mode is left / right / inner -/
-theorem merge_front (pandas : String → List Int → List Int → Except Err Pairs) (i : Input) (cs vf fuel : Nat)
+    lengths of the key columns; a clash among the destination names is a `ValueError` before anything is written (fix
+    NC02b) — whatever the hints; otherwise the call is handed to `_ordered_merge` exactly when both ordered hints are given,
+    the key is single and the mode is left / right / inner -/
+theorem merge_front' (pandas : String → List Int → List Int → Except Err Pairs) (i : Input) (cs vf fuel : Nat)
     (hhow : supportedModes.contains i.how = true)
     (htup : i.leftTuple = i.rightTuple) (htl : i.leftTuple = true → i.leftOn.length = i.rightOn.length)
     (hlne : i.leftOn ≠ []) (hrne : i.rightOn ≠ [])
@@ -74,7 +79,9 @@ theorem merge_front (pandas : String → List Int → List Int → Except Err Pa
     (hlc : ∀ k ∈ leftToMap i, ∃ c, look i.left k = some c ∧ c.len = i.lk.length)
     (hrc : ∀ k ∈ rightToMap i, ∃ c, look i.right k = some c ∧ c.len = i.rk.length) :
     merge pandas i cs vf fuel =
-      if isOrdered i then
+      if !(allDistinct (allDestNames i (leftToMap i) (rightToMap i))) then
+        .error (.valueError "merge would write more than one destination field named …")
+      else if isOrdered i then
         orderedMerge i (leftToMap i) (rightToMap i) i.lk.length i.rk.length (i.hintLU.getD false) (i.hintRU.getD false)
           cs vf fuel
       else unorderedMerge pandas i (leftToMap i) (rightToMap i) := by
@@ -94,6 +101,24 @@ theorem merge_front (pandas : String → List Int → List Int → Except Err Pa
   simp only [leftToMap, rightToMap] at a5 b5
   simp only [merge, hhow, Bool.not_true, Bool.false_eq_true, if_false, hkc, a1, b1, a4, b4, a5, b5, List.head?_cons,
     leftToMap, rightToMap]
+  rfl
+
+theorem merge_front (pandas : String → List Int → List Int → Except Err Pairs) (i : Input) (cs vf fuel : Nat)
+    (hhow : supportedModes.contains i.how = true)
+    (htup : i.leftTuple = i.rightTuple) (htl : i.leftTuple = true → i.leftOn.length = i.rightOn.length)
+    (hlne : i.leftOn ≠ []) (hrne : i.rightOn ≠ [])
+    (hlk : ∀ k ∈ i.leftOn, ∃ c, look i.left k = some c ∧ c.isIndexed = false ∧ c.len = i.lk.length)
+    (hrk : ∀ k ∈ i.rightOn, ∃ c, look i.right k = some c ∧ c.isIndexed = false ∧ c.len = i.rk.length)
+    (hlc : ∀ k ∈ leftToMap i, ∃ c, look i.left k = some c ∧ c.len = i.lk.length)
+    (hrc : ∀ k ∈ rightToMap i, ∃ c, look i.right k = some c ∧ c.len = i.rk.length)
+    (hnd : (allDestNames i (leftToMap i) (rightToMap i)).Nodup) :
+    merge pandas i cs vf fuel =
+      if isOrdered i then
+        orderedMerge i (leftToMap i) (rightToMap i) i.lk.length i.rk.length (i.hintLU.getD false) (i.hintRU.getD false)
+          cs vf fuel
+      else unorderedMerge pandas i (leftToMap i) (rightToMap i) := by
+  rw [merge_front' pandas i cs vf fuel hhow htup htl hlne hrne hlk hrk hlc hrc, (allDistinct_iff _).mpr hnd]
+  simp
 
 /-! ### a destination frame from a list of produced columns -/
 
